@@ -99,7 +99,11 @@ def run_case(A, case, rng, policy, extra_args=(), with_mapping=True):
     status, out, err = docproj.run_cli(["reconcile", case["alg"], "--solutions", policy] + list(extra_args), text)
     event = {"op": "cli", "alg": case["alg"], "policy": policy, "hassyn": bool(case["hassyn"]),
              "given": {"onames": list(case["onames"]), "snames": list(case["snames"]),
-                       "lm": sorted([u, s] for u, s in dict(case["lm"]).items())},
+                       "lm": sorted([u, s] for u, s in dict(case["lm"]).items()),
+                       "infer": [] if with_mapping else
+                       [[u, case["onames"][u - 1].lower().split("_")] for u in sorted(dict(case["lm"]))],
+                       "species": [[i, n.lower().split("_")] for i, n in enumerate(case["snames"], start=1)
+                                   if n and i not in set(case["st"])]},
              "exit": 0 if status is None else (status if isinstance(status, int) else 99), "lines": [], "printed": -1,
              "drawn": [], "input": data, "stderr": err[-300:], "args": list(extra_args)}
     if isinstance(status, mc.Raised):
@@ -208,8 +212,15 @@ def run(ctx):
         if len({n for n in onames if n}) != len([n for n in onames if n]):
             continue
         under = rng.random() < 0.4     # species names containing underscores
-        snames = tuple("" if (u in set(st) and rng.random() < 0.6) else (f"Sp_{u}" if under else f"Sp{u}")
-                       for u in range(1, len(st) + 1))
+        snames = ["" if (u in set(st) and rng.random() < 0.6) else (f"Sp_{u}" if under else f"Sp{u}")
+                  for u in range(1, len(st) + 1)]
+        sl = proj.leaves_of(st)
+        if len(sl) >= 2 and rng.random() < 0.35:    # one species name is a proper prefix of another ("q", "q_r")
+            snames[sl[0] - 1] = "q"
+            snames[sl[1] - 1] = "q_r"
+            if len(sl) >= 3 and rng.random() < 0.5:
+                snames[sl[2] - 1] = "q_r_t"
+        snames = tuple(snames)
         lm = {u: rng.choice(proj.leaves_of(st)) for u in proj.leaves_of(ot)}
         on = list(onames)
         for u, s in lm.items():
@@ -243,7 +254,7 @@ def run(ctx):
         printed = [l for l in proc.stderr.splitlines() if l.startswith("Minimum cost:")]
         events.append({"op": "cli", "alg": alg, "policy": "any", "hassyn": True,
                        "given": {"onames": ["", "", "x_1", "x_2", "y_1"], "snames": ["", "X", "Y"],
-                                 "lm": [[3, 2], [4, 2], [5, 3]]},
+                                 "lm": [[3, 2], [4, 2], [5, 3]], "infer": [], "species": []},
                        "exit": proc.returncode, "lines": lines, "printed": int(printed[0].split(":")[1]) if printed else -1,
                        "drawn": [], "input": "data/example.in.json (subprocess)", "stderr": proc.stderr[-200:], "args": []})
     ctx.stage("E3")
@@ -253,7 +264,8 @@ def run(ctx):
                                                  f"lines {[(l.get('onames'), l.get('snames'), l.get('cost'), l.get('error', '')) for l in e.get('lines', [])][:2]}, "
                                                  f"stderr {e.get('stderr', '')!r}; input {e.get('input')}"))
     lit = [{"op": "cli", "alg": "lca", "policy": "any", "hassyn": False,
-            "given": {"onames": ["", "a_1", "b_2"], "snames": ["", "A", "B"], "lm": [[2, 2], [3, 3]]},
+            "given": {"onames": ["", "a_1", "b_2"], "snames": ["", "A", "B"], "lm": [[2, 2], [3, 3]],
+                      "infer": [[2, ["a", "1"]], [3, ["b", "2"]]], "species": [[2, ["a"]], [3, ["b"]]]},
             "exit": 0, "lines": [{"onames": ["O0", "a_1", "b_2"], "snames": ["S0", "A", "B"], "cost": 0, "lm": [[2, 2], [3, 3]]}],
             "printed": 0,
             "drawn": [True]}]
